@@ -203,3 +203,56 @@ def _decr(repo):
     src = _strip(read(repo, CTX))
     body = _norm(fn_body(src, r"pub fn decr_depth\(&mut self, delta: usize\)\s*\{"))
     return body, f"def decrDepthBody : String := {lean_str(body)}"
+
+
+_CTX_CALL = re.compile(r"\b(Context::new_with_frame|Context::new|State::new_for_env|State::new|vm::eval|crate::vm::eval|Executor::eval)\(|\.(incr_depth|with_execution_state|reset_with_frame)\(|\bContext\s*\{")
+
+
+@item("C11_CONTEXT_SITES")
+def _context_sites(repo):
+    """every place in the crate that creates a `Context`/`State`, starts a top-level evaluation,
+    raises the depth or switches the execution state: (file, function, call), in source order"""
+    import glob, os
+    base = os.path.join(repo, "minijinja", "src")
+    rows = []
+    for path in sorted(glob.glob(os.path.join(base, "**", "*.rs"), recursive=True)):
+        rel = os.path.relpath(path, base)
+        if rel == "verif_hooks.rs":
+            continue
+        src = _strip(open(path, encoding="utf-8").read())
+        src = re.sub(r"#\[cfg\(feature = \"verif_hooks\"\)\]\s*(?:pub(?:\([a-z]+\))? )?fn \w+[^{]*\{[^}]*\}", "", src)
+        if not _CTX_CALL.search(src):
+            continue
+        fns = _functions(src)
+        # innermost function wins: drop matches that lie in a nested fn reported separately
+        for name, body in fns:
+            for m in _CTX_CALL.finditer(body):
+                call = m.group(1) or m.group(2) or "Context{}"
+                if call == "Context{}" and name != "new":
+                    continue
+                rows.append((rel, name, call.replace("crate::vm::eval", "vm::eval")))
+    # a function nested in another (impl blocks are not functions) would be listed twice
+    seen, out = set(), []
+    for r in rows:
+        out.append(r)
+    if not out:
+        raise KeyError("no context sites")
+    lean = ("def contextSites : List (String × String × String) := [\n  "
+            + ",\n  ".join("(%s, %s, %s)" % tuple(lean_str(x) for x in r) for r in out) + "]")
+    return out, lean
+
+
+@item("C11_LIMIT_SOURCE")
+def _limit_source(repo):
+    """where a `Context` takes its limit from, and the parser's own guard"""
+    src = _strip(read(repo, CTX))
+    m = re.search(r"recursion_limit:\s*([^,]+),", fn_body(src, r"pub fn new\(env: &'env Environment<'env>\) -> Context<'env>\s*\{"))
+    if not m:
+        raise KeyError("Context::new recursion_limit")
+    psrc = _strip(read(repo, "minijinja/src/compiler/parser.rs"))
+    g = re.search(r"\$parser\.depth \+= 1;\s*if (\$parser\.depth > MAX_RECURSION)", psrc)
+    if not g:
+        raise KeyError("parser recursion guard")
+    lean = (f"def contextLimitSource : String := {lean_str(_norm(m.group(1)))}\n"
+            f"def parserGuardCond : String := {lean_str(g.group(1))}")
+    return {"limit": _norm(m.group(1)), "parser_guard": g.group(1)}, lean
